@@ -74,8 +74,12 @@ def build_table(drv, repo, notes):
                      "closed": sorted(set(ff["closed_on_done"]) & waits), "stages": stages})
     if not facts["engine"]["found"]:
         raise vlib.MachineryError("Protocol.Start not found in %s/protocol/protocol.go" % repo)
+    ka = facts.get("keepalive") or {}
+    if not ka.get("found"):
+        raise vlib.MachineryError("keepalive.Client.startTimer not found in %s/protocol/keepalive/client.go" % repo)
     return {"apis": apis, "conn": {"waits": bool(facts["conn"]["waits"])},
-            "engine": {"startfail_done": bool(facts["engine"]["startfail_done"])}}, facts
+            "engine": {"startfail_done": bool(facts["engine"]["startfail_done"])},
+            "keepalive": {"arm_checks_done": bool(ka.get("arm_checks_done"))}}, facts
 
 
 def predictions(r):
@@ -225,7 +229,18 @@ def run(chk, replay=None):
                 "against the real client/server object inside a real ouroboros.Connection; call returned / hangs, "
                 "second call, Close returned, ErrorChan closed and the leftover library goroutines must be among the "
                 "predicted ones, and any hang or leftover is a violation of the property. A case is (call, script); "
-                "all are non-trivial")
+                "all are non-trivial. Four more modules cover the life cycle, bound the same way (TLC emits the cases "
+                "and every at-rest / terminal observation; the raw peer and the driver, with the engine's and the "
+                "muxer's verif trace hooks as gates, force the schedules): ServerRestart.tla - chain-sync, block-fetch "
+                "and tx-submission servers restarting on Done (old instance stops, unregisters, new one registers or "
+                "fails to; peer scripts <= 3 steps over done/request/close with the steps after the first Done early, "
+                "mid, late or free; a server call racing ProtocolInstance()); ClientStop.tla - Stop() of the eight "
+                "clients (engine / lifecycle / soft / waiting kinds) while a call is blocked, twice, concurrently, after "
+                "the peer closed, while a handler sits in a user callback; KeepAliveTimer.tla - the keep-alive client's "
+                "timer chain (tick = check, enqueue, SendError, re-arm; clean-up goroutine; period free) over reply / "
+                "bad reply / Stop / close in every order, with the schedule that holds a tick inside enqueueMessage "
+                "until the clean-up has run; BulkSend.tla - a >= 1 MiB reply or stream stuck in sendLoop's hand-off "
+                "behind a peer that stopped reading when the connection ends")
     chk.assumptions = [
         "state timeouts (C14) are configured out of the way (10 min); a hang verdict needs: whole script written, "
         "connection ended, two dumps 1.5 s apart with the caller parked inside the library method and every library "
@@ -235,6 +250,12 @@ def run(chk, replay=None):
         "other channels (chain-sync want*-channels are hand-stated as buffered)",
         "the user reads ErrorChan only after Close returned (capacity 0 or 10 by seed), the most adverse legal order",
         "block-fetch batches and chain-sync streams are covered in depth by C23/C21; here they are one generic instance",
+        "life-cycle cases: the user reads ErrorChan all the time; 'at rest' = every library goroutine parked (time.Sleep "
+        "is not rest) and unchanged over 150 ms, twice; old protocol instances are told apart by the *Protocol pointer "
+        "in the trace events and in the goroutines' entry frames; the keep-alive timer is read through reflect/unsafe "
+        "under the client's own mutex (three samples 0.6 s = 10 periods apart, then Stop()); chain-sync server restart "
+        "runs node-to-client (the node-to-node CanAwait state has a fixed 10 s server-side timeout); chain-sync Stop "
+        "with PipelineLimit 2 (F-C21-stopfull needs > 80)",
     ]
     drv = vlib.go_build("c15")
     notes = []
@@ -251,11 +272,21 @@ def run(chk, replay=None):
         for a in table["apis"]}
     chk.extra["shutdown_waits_for_forwarders"] = table["conn"]["waits"]
     chk.extra["start_closes_DoneChan_when_registration_fails"] = table["engine"]["startfail_done"]
+    chk.extra["keepalive_startTimer_checks_DoneChan_before_arming"] = table["keepalive"]["arm_checks_done"]
 
     if replay:
         obj = json.load(open(replay))
         row = obj["row"]
         row["rseed"] = obj.get("rseed")
+        if row.get("kind"):
+            # a life-cycle case (server restart / client Stop / keep-alive timer / bulk send)
+            if len([o for o in row.get("pred", []) if o.get("at") == "end"]) > 1:
+                row["repeat"] = 12
+            path = os.path.join(d, "replay_rows.ndjson")
+            vlib.write_ndjson(path, [row])
+            env = {"VERIF_SEED": obj["verif_seed"]} if "verif_seed" in obj else None
+            vlib.run_driver(chk, drv, ["life", path], timeout=900, env=env)
+            return
         if len(row.get("pred", {}).get("alive", [])) > 1:
             row["repeat"] = 24       # the recorded verdict depends on a race: give it some chances
         path = os.path.join(d, "replay_rows.ndjson")
@@ -266,7 +297,36 @@ def run(chk, replay=None):
 
     quick = chk.tier == "quick"
     cfg = "ClientApi.cfg" if quick else "ClientApiThorough.cfg"
-    r = _tlc(chk, cfg, table_path, timeout=240 if quick else 1200, workers=4 if quick else 8, coverage=not quick)
+    rcfg = "ClientApiRepairedQuick.cfg" if quick else "ClientApiRepaired.cfg"
+    # every TLC run of the tier at once (they are independent; the machine may be busy)
+    jobs = {
+        "api": lambda: _tlc(chk, cfg, table_path, timeout=300 if quick else 1200, workers=4 if quick else 8,
+                            coverage=not quick, add=False),
+        "api_repaired": lambda: _tlc(chk, rcfg, table_path, timeout=300 if quick else 1200, workers=4, add=False),
+    }
+    for kind, (mod, _, _, _, _) in LIFE.items():
+        lcfg = mod + (".cfg" if quick or kind == "bulk" else "Thorough.cfg")
+        jobs[kind] = (lambda mod=mod, lcfg=lcfg: vlib.run_tlc(
+            "net/" + mod, cfg=lcfg, files=[table_path], timeout=300 if quick else 1500,
+            workers=(2 if mod == "ServerRestart" else 1) if quick else 4, deadlock=False))
+    if not quick:
+        jobs["restart_live"] = lambda: vlib.run_tlc("net/ServerRestart", cfg="ServerRestartLive.cfg", files=[table_path],
+                                                    timeout=1500, workers=4, deadlock=False)
+    import concurrent.futures
+    res, errs = {}, {}
+
+    def one(name):
+        try:
+            res[name] = jobs[name]()
+        except vlib.MachineryError as e:
+            errs[name] = e
+    with concurrent.futures.ThreadPoolExecutor(max_workers=len(jobs)) as ex:
+        list(ex.map(one, list(jobs)))
+    if errs:
+        raise errs[sorted(errs)[0]]
+    for name in jobs:
+        chk.add_tlc({"api": cfg, "api_repaired": rcfg}.get(name, name), res[name])
+    r, rr = res["api"], res["api_repaired"]
     vlib.tlc_must_pass(r, cfg)
     if r.coverage_zero:
         chk.extra["spec_actions_never_taken"] = sorted(set(r.coverage_zero))
@@ -286,19 +346,120 @@ def run(chk, replay=None):
                      {"cases": [[x["api"], x["script"]] for x in unsafe[:20]]})
 
     # the repaired design satisfies the property's liveness statements (and the spec is not vacuous)
-    rcfg = "ClientApiRepairedQuick.cfg" if quick else "ClientApiRepaired.cfg"
-    rr = _tlc(chk, rcfg, table_path, timeout=240 if quick else 1200, workers=4)
     vlib.tlc_must_pass(rr, rcfg)
+
+    # ---- the life-cycle modules: server restart on Done, client Stop(), keep-alive timer, bulk send
+    life = []
+    for kind, (mod, _, _, _, _) in LIFE.items():
+        vlib.tlc_must_pass(res[kind], mod)
+        krows = life_rows(kind, res[kind])
+        chk.extra["life_cases_" + kind] = len(krows)
+        chk.extra["life_cases_%s_with_more_than_one_predicted_outcome" % kind] = sum(1 for x in krows if x.get("repeat"))
+        if kind == "timer":
+            chk.extra["timer_cases_where_the_model_predicts_a_timer_left_armed_in_every_behaviour"] = sum(
+                1 for x in krows if all(o["leak"] for o in x["pred"] if o["at"] == "end"))
+            chk.extra["timer_cases_where_the_model_predicts_it_in_some_behaviour"] = sum(
+                1 for x in krows if any(o["leak"] for o in x["pred"] if o["at"] == "end"))
+        if quick:
+            # the model is checked in full; the replay on the real code takes a seeded half of the racy cases
+            pick = int(chk.seed) % 2
+            racy = {x["idx"]: j for j, x in enumerate(y for y in krows if y.get("repeat"))}
+            krows = [x for x in krows if not x.get("repeat") or racy[x["idx"]] % 2 == pick or kind == "bulk"]
+            if kind == "bulk":
+                krows = [x for x in krows if x["reads"] == 1 + pick % 2 or x["target"] == "txsubmission-client"]
+            for x in krows:
+                if x.get("repeat"):
+                    x["repeat"] = 2
+        life += krows
+    chk.extra["life_cases_replayed"] = len(life)
+    if "restart_live" in res:
+        vlib.tlc_must_pass(res["restart_live"], "ServerRestartLive.cfg")
     if not quick:
         _liveness_on_extracted(chk, table_path, rows, unsafe)
+        _defective_designs(chk, table_path)
 
+    # ---- replay on the real code: both families at once
     shards = 8 if quick else 16
+    sub = vlib.Check(chk.pid, chk.tier, chk.seed)
+    sub.findings = chk.findings
+    lerr = []
+
+    def run_life():
+        try:
+            # longest first within a shard does not matter; interleave the kinds so that shards are even
+            vlib.run_driver_sharded(sub, drv, ["life"], sorted(life, key=lambda x: (x["idx"], x["kind"])),
+                                    shards=shards, timeout=500 if quick else 2400)
+        except vlib.MachineryError as e:
+            lerr.append(e)
+    import threading
+    th = threading.Thread(target=run_life)
+    th.start()
     vlib.run_driver_sharded(chk, drv, ["run", table_path], rows, shards=shards, timeout=400 if quick else 1500)
+    th.join()
+    if lerr:
+        raise lerr[0]
+    chk.evaluations += sub.evaluations
+    chk.nontrivial |= {"life/" + k for k in sub.nontrivial}
+    chk.violations += sub.violations
+    chk.known_hits += sub.known_hits
+    for x in sub.samples:
+        chk.sample(x, cap=9)
+    for k, v in sub.extra.items():
+        chk.extra[k] = v
     if not quick:
         _binding_selftest(chk, drv, table_path, rows)
-    chk.extra["invariants"] = INVS + ["ErrorChanSafe (repaired design; as an emitted observation on the extracted one)"]
-    chk.extra["liveness"] = PROPS
+        _life_selftest(chk, drv, life)
+    chk.extra["invariants"] = INVS + ["ErrorChanSafe (repaired design; as an emitted observation on the extracted one)"] + LIFE_INVS
+    chk.extra["liveness"] = PROPS + LIFE_PROPS
     chk.exhaustive = True
+
+
+LIFE_INVS = ["ServerRestart: RegisteredRuns OneLive DoneAfterLoops CleanAfterDone TerminalGood RestGood",
+             "ClientStop: MutexOwners DoneAfterHandler CloseAfterDone TerminalGood",
+             "KeepAliveTimer: WireAfterStop DoneAfterLoops CleanAfterDone NoImmortalTimer (repaired design) TerminalGood",
+             "BulkSend: DoneAfterLoops TerminalGood"]
+LIFE_PROPS = ["ServerRestart (thorough): OldInstanceEnds CallsReturn CloseCompletes ScriptPlayed",
+              "ClientStop (thorough): StopsAndCallsReturn CloseCompletes ScenarioPlayed",
+              "KeepAliveTimer (thorough): CloseCompletes TimerQuiesces ScriptPlayed",
+              "BulkSend: CloseCompletes EndsWithConnection ReachesBlocked"]
+
+
+def _defective_designs(chk, table_path):
+    """Designs TLC has to reject: the timer chain as the code has it (NoImmortalTimerAny), sendLoop's hand-off
+    without the recvDoneChan case (NothingLeft)."""
+    out = {}
+    for mod, cfg, inv in (("KeepAliveTimer", "KeepAliveTimerAsCode.cfg", "NoImmortalTimerAny"),
+                          ("BulkSend", "BulkSendNoRecvDone.cfg", "NothingLeft")):
+        r = vlib.run_tlc("net/" + mod, cfg=cfg, files=[table_path], timeout=600, workers=2, deadlock=False)
+        chk.add_tlc(cfg, r)
+        if r.ok or inv not in (r.violation or ""):
+            raise vlib.MachineryError("%s: TLC did not reject the defective design (%s): %s" % (cfg, inv, r.violation or r.error))
+        out[cfg] = "rejected: " + inv
+    chk.extra["defective_designs_tlc_must_reject"] = out
+
+
+def _life_selftest(chk, drv, life):
+    """Flip the prediction of one held-tick timer case to 'no timer left' and of one bulk case to 'sendLoop left':
+    the driver must object to both."""
+    vt = next((x for x in life if x["kind"] == "timer" and x.get("hold") == "tick"), None)
+    vb = next((x for x in life if x["kind"] == "bulk"), None)
+    if vt is None or vb is None:
+        raise vlib.MachineryError("life self-test: no held-tick timer case / no bulk case")
+    v1 = json.loads(json.dumps(vt))
+    for o in v1["pred"]:
+        o["leak"] = False
+    v2 = json.loads(json.dumps(vb))
+    for o in v2["pred"]:
+        o["alive"] = ["send"]
+    path = os.path.join(vlib.scratch("c15-lifeself-"), "rows.ndjson")
+    vlib.write_ndjson(path, [v1, v2])
+    p = vlib.run_cmd([drv, "life", path], timeout=600, env={"VERIF_SEED": chk.seed, "VERIF_TIER": chk.tier})
+    keys = [json.loads(l).get("key", "") for l in p.stdout.splitlines()
+            if l.startswith("{") and json.loads(l).get("t") == "disagree"]
+    if not any(k.endswith("leak=timer:unpredicted") for k in keys) or not any("end:unpredicted:alive=[]" in k for k in keys):
+        raise vlib.MachineryError("life self-test: flipped predictions gave %s" % keys)
+    chk.extra["life_binding_selftest"] = ("held-tick timer case predicted 'no timer left' / bulk case predicted 'sendLoop "
+                                          "left': driver objected to both")
 
 
 def _binding_selftest(chk, drv, table_path, rows):
